@@ -288,8 +288,8 @@ where
     /// Returns Ok if the edge was added successfully, or an error if the segment does not
     /// contain any hops.
     /// Checks the structural invariants every beaconed segment fulfils: no wildcard or repeated
-    /// AS, the first entry has no ingress and the last no egress interface, and all interfaces in
-    /// between are set.
+    /// AS, the first entry has no ingress and the last no egress interface, all interfaces in
+    /// between are set, and so are the interfaces of every peering link.
     fn check_well_formed(segment: &PathSegment<EntryType>) -> Result<(), &'static str> {
         let len = segment.len();
         let mut seen = HashSet::with_capacity(len);
@@ -304,6 +304,13 @@ where
             }
             if (hop_field.cons_egress == 0) != (idx == len - 1) {
                 return Err("Segment has an unexpected construction egress interface");
+            }
+            if entry
+                .peer_entries
+                .iter()
+                .any(|peer| peer.hop_field.cons_ingress == 0 || peer.peer_interface == 0)
+            {
+                return Err("Segment has a peer entry without peering interfaces");
             }
         }
 
